@@ -374,6 +374,9 @@ def _run_streams(prop, tier, seed, replay, t0, out, impl, work, obligations, dis
 
     violations = 0
     seen_known = set()
+    # failures on which the property's own oracle (or a crash) speaks come first: they carry a failing input;
+    # corpus witnesses keep their place in front (known findings are matched on them)
+    failures.sort(key=lambda f: (0 if f[0].meta.get("corpus") else 1, 0 if (f[2] is not None or f[3][1] is not None) else 1))
     for s, d, orc, cr, lr in failures:
         wit = None
         if s.meta.get("corpus"):
